@@ -129,6 +129,14 @@ func (p *Parser) validateMultihash(mh, alias string) error {
 		return fmt.Errorf("%s is not a base64url encoded (unpadded) multihash", alias)
 	}
 
+	// the digest has to have the length that the named algorithm produces (the multihash framing only says how
+	// many bytes follow)
+	if decoded, err := hashing.GetMultihash(mh); err == nil {
+		if h, e := hashing.GetHashFromMultihash(uint(decoded.Code)); e == nil && len(decoded.Digest) != h.Size() {
+			return fmt.Errorf("%s has a digest of %d bytes, the algorithm produces %d", alias, len(decoded.Digest), h.Size())
+		}
+	}
+
 	return nil
 }
 
